@@ -1,5 +1,6 @@
 import RactorModel.Extracted
 import RactorModel.Lemmas.LifeC03
+import RactorModel.Lemmas.LifeC03Spec
 import RactorModel.Lemmas.LifeWorld
 
 /-!
@@ -100,6 +101,81 @@ theorem kill_cancels_open (a : Actor) (cb : Cb) (h : a.sigVal = true) :
     · refine ⟨fun hm => ?_, fun hm => ?_, fun r hm => ?_⟩ <;>
         (have := killedOutsideLoop_noise _ _ hm; simp [Ev.isExitNoise] at this)
 
+/-! ### Stop is graceful, kill is immediate (round 4)
+
+`Life.C03.next` now also rejects: a `cancelled` callback that no accepted kill and no abort explains
+(`c03.stop-cancelled-callback` after an accepted stop, `c03.cancelled-without-kill` otherwise) and an
+`exit` after an accepted kill other than the return of the very segment that killed its own actor
+(`c03.exit-after-kill`); kills issued by a supervisor's `terminate()` are events (`treeKill`). -/
+
+/-- **Stop is graceful (trace level).** In an accepted trace a callback is cancelled only after an
+accepted kill (API, self, or a supervisor's `terminate()`) or an abort / dropped start-up — never
+because of a stop: after an accepted stop (no kill, no abort) the open handler is not cancelled. -/
+theorem cancel_only_by_kill_or_abort (tr p r : List Ev) (cb : Cb) (h : Life.C03.ok tr = true)
+    (e : tr = p ++ .cancelled cb :: r) :
+    ∃ x ∈ p, Life.C03.isKillAcc x = true ∨ Life.C03.isAbort x = true := by
+  obtain ⟨s, hs⟩ := Life.C03.ok_iff.mp h
+  subst e
+  obtain ⟨s1, h1, h2⟩ := Life.C01.accepts_append_inv _ p _ hs
+  rw [accepts_cons] at h2
+  cases hn : Life.C03.next s1 (.cancelled cb) with
+  | error c => simp [hn] at h2
+  | ok s2 =>
+    rcases Life.C03.accepts_cause h1 (Life.C03.next_cancelled_inv hn) with h0 | h0
+    · rcases h0 with h0 | h0 <;> cases h0
+    · exact h0
+
+/-- **Kill is immediate (trace level).** After a kill accepted from outside the actor's own callback
+(API kill or `terminate()`), with no self-kill in the trace, no callback is entered, passes a
+suspension point, or returns. (The one `exit` the automaton tolerates after a kill is the return
+of the segment that issued a self-kill.) -/
+theorem no_progress_after_kill (tr p r : List Ev) (e : Ev) (h : Life.C03.ok tr = true)
+    (hsplit : tr = p ++ e :: r) (hk : ∃ x ∈ p, Life.C03.isExtKill x = true)
+    (hns : ∀ x ∈ p, Life.C03.isSelfKill x = false) : Life.C03.isProgress e = false := by
+  obtain ⟨s, hs⟩ := Life.C03.ok_iff.mp h
+  subst hsplit
+  obtain ⟨s1, h1, h2⟩ := Life.C01.accepts_append_inv _ p _ hs
+  rw [accepts_cons] at h2
+  cases hn : Life.C03.next s1 e with
+  | error c => simp [hn] at h2
+  | ok s2 =>
+    obtain ⟨hg, hkill⟩ := Life.C03.accepts_noGrace h1 hns rfl
+    cases hp : Life.C03.isProgress e with
+    | false => rfl
+    | true =>
+      rcases Life.C03.next_progress_inv hn hp with h0 | h0
+      · rw [hkill (Or.inr hk)] at h0; cases h0
+      · rw [hg] at h0; cases h0
+
+/-- **Stop is graceful (model level, every handler phase).** A handler (message or supervision) is
+suspended, a stop has been accepted (`stopVal = some r`, the sender is gone), no kill is pending, and
+the handler's next segment returns `Ok` without killing its own actor: the next poll cancels
+nothing, lets the handler finish (`exit … ok`), enters no further handler, and enters `post_stop`
+with exactly the accepted reason — whatever else is queued in the supervision and message ports. -/
+theorem graceful_stop (a : Actor) (r : Reason) (fx : List Fx)
+    (hph : a.phase = .inMsg ∨ a.phase = .inSup) (hsig : a.sigVal = false) (hstop : a.stopVal = some r)
+    (htx : a.stopTx = false) (hseg : a.seg = some ⟨fx, .ok⟩) (hnk : Fx.killSelf ∉ fx) :
+    (opPoll a).1.phase = .postStop r ∧
+    (∀ e ∈ evs (opPoll a).2, Life.C01.isFatal e = false) ∧
+    (∃ pre cb, evs (opPoll a).2 = pre ++ [.exit cb .ok, .enter .postStop .none] ∧
+      ∀ e ∈ pre, ∀ c x, e ≠ .enter c x) ∧
+    (opPoll a).1.supQ = a.supQ := by
+  have key : ∀ cb : Cb,
+      (pollOpen a cb).1.phase = .postStop r ∧
+      (∀ e ∈ evs (pollOpen a cb).2, Life.C01.isFatal e = false) ∧
+      (∃ pre cb', evs (pollOpen a cb).2 = pre ++ [.exit cb' .ok, .enter .postStop .none] ∧
+        ∀ e ∈ pre, ∀ c x, e ≠ .enter c x) ∧
+      (pollOpen a cb).1.supQ = a.supQ := by
+    intro cb
+    unfold pollOpen
+    simp only [hsig, hseg, Bool.false_eq_true, ↓reduceIte]
+    exact Life.C03.runSeg_graceful _ cb fx r (by simpa using hph) (by simpa using hsig) (by simpa using hstop)
+      (by simpa using htx) hnk
+  unfold opPoll
+  rcases hph with h | h
+  · simp only [h]; exact key .handle
+  · simp only [h]; exact key .sup
+
 /-! ### E-SRC obligations: the source still has the shape the model assumes -/
 
 theorem src_select_order : Extracted.selectArmVariants = [Life.selectOrder, Life.selectOrder] := by decide
@@ -138,6 +214,20 @@ example : Life.C03.ok [.killRet true true, .tick .handle] = false := by decide
 example : Life.C03.ok [.stopRet false .none true, .enter .sup (.sup (.started 1))] = false := by decide
 example : Life.C03.ok [.supArrive (.started 1), .enter .handle (.msg 1)] = false := by decide
 example : Life.C03.ok [.stopRet false .none true, .tick .handle, .exit .handle .ok, .enter .postStop .none] = true := by decide
+-- round 4: stop never cancels, a killed callback does not return, tree kills count
+example : Life.C03.ok [.enter .handle (.msg 1), .stopRet false .none true, .cancelled .handle] = false := by decide
+example : Life.C03.ok [.enter .handle (.msg 1), .cancelled .handle] = false := by decide
+example : Life.C03.ok [.enter .handle (.msg 1), .killRet false true, .exit .handle .ok] = false := by decide
+example : Life.C03.ok [.enter .handle (.msg 1), .treeKill, .tick .handle] = false := by decide
+example : Life.C03.ok [.enter .handle (.msg 1), .tick .handle, .killRet true true, .exit .handle .ok] = true := by decide
+example : Life.C03.ok [.enter .handle (.msg 1), .aborted, .cancelled .handle] = true := by decide
+
+/-- E-SRC, async-std backend (round 4): in `actor_cell.rs` the `#[cfg(feature = "async-std")]` block of
+`listen_in_priority` and of `run_with_signal` is the tokio block with every arm's future `.fuse()`d (what
+`futures::select_biased!` needs) and nothing else changed; together with `src_select_biased` /
+`src_select_order` / `src_run_with_signal` the priority order is the same on both backends. -/
+theorem src_async_std_select_twins :
+    Extracted.asyncStdSelectTwins = [("listen_in_priority", true), ("run_with_signal", true)] := by decide
 
 end C03
 
@@ -149,6 +239,10 @@ end C03
 #print axioms C03.pick_supervision
 #print axioms C03.pick_message
 #print axioms C03.kill_cancels_open
+#print axioms C03.cancel_only_by_kill_or_abort
+#print axioms C03.no_progress_after_kill
+#print axioms C03.graceful_stop
 #print axioms C03.src_select_order
 #print axioms C03.src_select_biased
 #print axioms C03.src_run_with_signal
+#print axioms C03.src_async_std_select_twins
